@@ -22,8 +22,10 @@ pub mod c22;
 pub mod c26;
 pub mod c28;
 pub mod c36;
+pub mod c37;
 
 fn one(_: Tier) -> usize { 1 }
+fn four(_: Tier) -> usize { 4 }
 
 pub fn all() -> Vec<CheckDef> {
     vec![
@@ -47,6 +49,7 @@ pub fn all() -> Vec<CheckDef> {
         CheckDef { id: "C26", shards: one, run: c26::run, replay: Some(c26::replay) },
         CheckDef { id: "C39", shards: one, run: c39::run, replay: Some(c39::replay) },
         CheckDef { id: "C36", shards: one, run: c36::run, replay: Some(c36::replay) },
+        CheckDef { id: "C37", shards: four, run: c37::run, replay: Some(c37::replay) },
         CheckDef { id: "C28", shards: one, run: c28::run, replay: Some(c28::replay) },
     ]
 }
